@@ -300,9 +300,11 @@ theorem reorg_load {W : Nat} {t : Table K V} {s : TSpec K V} (h : Sim W t s) (n 
     · simp [eff, retrieve, h5, e3, e2, hcdb]
     · simp [eff, retrieve, hca, hcdb]
 
-theorem sim_reorg {W : Nat} {t : Table K V} {s : TSpec K V} (h : Sim W t s) (n : Nat)
-    (hw : s.maxEver ≤ n + W) (hn : n ≤ s.maxEver) :
-    ∃ t', t.reorg W n = some t' ∧ Sim W t' (s.step (.reorg n)) := by
+/-- `reorg n` inside the window; the target may be above everything ever written (then nothing is cut, but the
+closing `commit n` of the rollback drops histories that are old w.r.t. `n`, so the window moves as for `commit n`). -/
+theorem sim_reorg' {W : Nat} {t : Table K V} {s : TSpec K V} (h : Sim W t s) (n : Nat)
+    (hw : s.maxEver ≤ n + W) :
+    ∃ t', t.reorg W n = some t' ∧ Sim W t' { s.step (.reorg n) with maxEver := max s.maxEver (n - 1) } := by
   obtain ⟨t1, e1, e2, e3, nd1, hk⟩ := reorg_load h n hw
   refine ⟨t1.commit W n, by simp [Table.reorg, e1], ?_⟩
   have hc1 : ∀ k h0, t1.cache.get? k = some h0 → Ok h0 (min s.top n) := by
@@ -316,7 +318,7 @@ theorem sim_reorg {W : Nat} {t : Table K V} {s : TSpec K V} (h : Sim W t s) (n :
     rcases hk k with ⟨hg', _⟩ | ⟨_, _, _, ha, hb⟩
     · rw [eff_cached hg', valAt_filter (eff_ok h.inv k).sorted]
     · rw [ha, hb, valAt_new, valAt_new]
-  have key : ∀ k m, s.maxEver ≤ m + W →
+  have key : ∀ k m, max s.maxEver (n - 1) ≤ m + W →
       valAt (disk (t1.commit W n) k) m = valAt ((s.cur k).filter (fun e => decide (e.1 ≤ n))) m := by
     intro k m hm
     rw [valAt_disk_commit W n nd1 hc1 k (by omega), hv1 k m, h.cur_eq k (min m n) (by omega),
@@ -334,12 +336,21 @@ theorem sim_reorg {W : Nat} {t : Table K V} {s : TSpec K V} (h : Sim W t s) (n :
     rcases hk k with ⟨hg', _⟩ | ⟨_, hd', _⟩
     · rw [hg'] at hg; cases hg
     · rw [hd'] at hd; cases hd
-  · show min s.top n ≤ s.maxEver
+  · show min s.top n ≤ max s.maxEver (n - 1)
+    have := h.top_le
     omega
   · intro k m hm
     rw [eff_commit]; exact key k m hm
   · intro k m hm
     exact key k m hm
+
+theorem sim_reorg {W : Nat} {t : Table K V} {s : TSpec K V} (h : Sim W t s) (n : Nat)
+    (hw : s.maxEver ≤ n + W) (hn : n ≤ s.maxEver) :
+    ∃ t', t.reorg W n = some t' ∧ Sim W t' (s.step (.reorg n)) := by
+  obtain ⟨t', e, h'⟩ := sim_reorg' h n hw
+  have hm : max s.maxEver (n - 1) = s.maxEver := by omega
+  rw [hm] at h'
+  exact ⟨t', e, h'⟩
 
 /-! ## Statements to prove (the refinement) -/
 
@@ -394,10 +405,10 @@ theorem run_sim {W : Nat} {t : Table K V} {s : TSpec K V} (h : Sim W t s) (ops :
     · simpa [TSpec.run] using h2
 
 /-- Rolling back inside the window restores, for every key, the value it had at the end of block `n`. -/
-theorem rollback_in_window {W : Nat} {t : Table K V} {s : TSpec K V} (h : Sim W t s) (n : Nat)
-    (hw : s.maxEver ≤ n + W) (hn : n ≤ s.maxEver) :
+theorem rollback_in_window' {W : Nat} {t : Table K V} {s : TSpec K V} (h : Sim W t s) (n : Nat)
+    (hw : s.maxEver ≤ n + W) :
     ∃ t', t.reorg W n = some t' ∧ ∀ k, t'.latest k = s.readAt k n := by
-  obtain ⟨t', e, h'⟩ := sim_reorg h n hw hn
+  obtain ⟨t', e, h'⟩ := sim_reorg' h n hw
   refine ⟨t', e, ?_⟩
   intro k
   rw [sim_latest h' k]
@@ -408,6 +419,11 @@ theorem rollback_in_window {W : Nat} {t : Table K V} {s : TSpec K V} (h : Sim W 
   rw [Nat.min_self] at h2
   have h3 : valAt (s.cur k) n = some (((s.step (.reorg n)).cur k).latest) := h2.symm.trans h1
   simp only [TSpec.readAt, TSpec.read, h3]
+
+theorem rollback_in_window {W : Nat} {t : Table K V} {s : TSpec K V} (h : Sim W t s) (n : Nat)
+    (hw : s.maxEver ≤ n + W) (_hn : n ≤ s.maxEver) :
+    ∃ t', t.reorg W n = some t' ∧ ∀ k, t'.latest k = s.readAt k n :=
+  rollback_in_window' h n hw
 
 /-- After a commit, what is on disk is what was readable: a reopened table reads the same. -/
 theorem commit_then_reopen_reads {W : Nat} {t : Table K V} {s : TSpec K V} (h : Sim W t s) (b : Nat) (k : K) :
